@@ -17,8 +17,43 @@ FIELDS = ("x", "log_likelihood", "log_prior", "log_q")
 def conv(a, xp, dtype):
     """value-preserving conversion into namespace xp with dtype: same values, new meta"""
     if isinstance(a, Arr):
-        return Arr(a.n, a.elem, a.at, a.key, dict(a.meta, ns=xp, dtype=dtype))
+        return Arr(a.n, a.elem, a.at, a.key, dict(a.meta, ns=xp, dtype=dtype), a.facts)
     return a
+
+
+_RESOLVED = {}
+
+
+def resolved_dtype(dt, xp):
+    """resolve_dtype(dt, xp) as a token; memoised so that the same request yields the same token object; resolving a dtype that
+    was already resolved for the same namespace returns it unchanged (assumed contract of resolve_dtype: idempotent)"""
+    if isinstance(dt, Sym) and dt.info.get("resolved_ns") is not None and dt.info["resolved_ns"].eq(xp.e):
+        return dt
+    key = (skey(dt), xp.e.sexpr())
+    if key not in _RESOLVED:
+        if isinstance(dt, NoneV):
+            e = uf("default_dtype", Misc, Misc)(xp.e)
+        elif isinstance(dt, Str):
+            e = uf("resolve_dtype_name_" + dt.v, Misc, Misc)(xp.e)
+        else:
+            e = uf("resolve_dtype", Misc, Misc, Misc)(dt.e, xp.e)
+        _RESOLVED[key] = Sym(e, "dtype", {"requested": dt, "resolved_ns": xp.e})
+    return _RESOLVED[key]
+
+
+def _same_token(a, b):
+    if a is b:
+        return True
+    if isinstance(a, Sym) and isinstance(b, Sym):
+        return a.e.eq(b.e)
+    if isinstance(a, Str) and isinstance(b, Str):
+        return a.v == b.v
+    return isinstance(a, NoneV) and isinstance(b, NoneV)
+
+
+def dtype_carried(dt, src):
+    """the result's dtype token is the source's (directly, or as the dtype requested at construction)"""
+    return isinstance(dt, Sym) and (_same_token(dt, src) or _same_token(dt.info.get("requested"), src))
 
 
 def arr_eq_goal(a, b):
@@ -28,7 +63,7 @@ def arr_eq_goal(a, b):
     if not (isinstance(a, Arr) and isinstance(b, Arr)) or a.elem != b.elem:
         return z3.BoolVal(False)
     i = z3.Int(fresh("sk"))
-    return z3.And(a.n == b.n, z3.Implies(z3.And(i >= 0, i < a.n), a.at(i) == b.at(i)))
+    return z3.And(a.n == b.n, z3.Implies(z3.And(i >= 0, i < a.n, a.hyp(i), b.hyp(i)), a.at(i) == b.at(i)))
 
 
 class PostInitModel(Contract):
@@ -42,13 +77,7 @@ class PostInitModel(Contract):
         if isinstance(s.f.get("xp"), NoneV):
             s.f["xp"] = x.meta.get("ns", Sym(z3.Const(f"ns<{skey(x)}>", Misc), "ns")) if isinstance(x, Arr) else Sym(z3.Const(fresh("ns"), Misc), "ns")
         xp = s.f["xp"]
-        dt = s.f.get("dtype", NONE)
-        if isinstance(dt, NoneV):
-            dt = Sym(uf("default_dtype", Misc, Misc)(xp.e), "dtype") if isinstance(xp, Sym) else Sym(z3.Const(fresh("dtype"), Misc), "dtype")
-        elif isinstance(dt, Sym):
-            dt = Sym(uf("resolve_dtype", Misc, Misc, Misc)(dt.e, xp.e), "dtype", {"requested": dt})
-        elif isinstance(dt, Str):
-            dt = Sym(uf("resolve_dtype_name", Misc, Misc)(xp.e), "dtype", {"requested": dt, "name": dt.v})
+        dt = resolved_dtype(s.f.get("dtype", NONE), xp)
         s.f["dtype"] = dt
         for k in FIELDS:
             v = s.f.get(k, NONE)
@@ -156,7 +185,7 @@ class GetItem(Contract):
                 p.prove(arr_eq_goal(got, want), f"{q}:C16:C10:{k} == take(self.{k}, idx) with the same idx")
         p.prove(z3.BoolVal(r.f.get("parameters") is snap["parameters"]), f"{q}:C16:parameters carried")
         dt = r.f.get("dtype")
-        p.prove(z3.BoolVal(isinstance(dt, Sym) and dt.info.get("requested") is snap["dtype"]), f"{q}:C15:C16:dtype of the source requested for the result")
+        p.prove(z3.BoolVal(dtype_carried(dt, snap["dtype"])), f"{q}:C15:C16:dtype of the source requested for the result")
         if self.cls in ("Samples", "SMCSamples"):
             for k in ("log_evidence", "log_evidence_error"):
                 p.prove(I.equal(r.f.get(k, NONE), snap[k]), f"{q}:C16:{k} carried, not recomputed")
@@ -285,7 +314,7 @@ class Resample(ResampleModel):
         p.prove(r.f["x"].n == M, f"{q}:C09:result has the requested size")
         p.prove(z3.BoolVal(r.f.get("parameters") is snap["parameters"]), f"{q}:C09:parameters carried")
         dt = r.f.get("dtype")
-        p.prove(z3.BoolVal(isinstance(dt, Sym) and dt.info.get("requested") is snap["dtype"]), f"{q}:C09:C15:dtype of the source requested for the result (exact copies keep their precision)")
+        p.prove(z3.BoolVal(dtype_carried(dt, snap["dtype"])), f"{q}:C09:C15:dtype of the source requested for the result (exact copies keep their precision)")
 
     def canaries(self, I, pre, r):
         g = pre.ghost
@@ -319,7 +348,7 @@ class ToStandardSamples(ToStandardSamplesModel):
             p.prove(I.equal(r.f.get(k, NONE), snap[k]), f"{q}:C08:{k} carried unchanged")
         p.prove(z3.BoolVal(r.f.get("xp") is snap["xp"]), f"{q}:C15:namespace carried")
         dt = r.f.get("dtype")
-        p.prove(z3.BoolVal(isinstance(dt, Sym) and dt.info.get("requested") is snap["dtype"]), f"{q}:C15:dtype of the source requested for the result")
+        p.prove(z3.BoolVal(dtype_carried(dt, snap["dtype"])), f"{q}:C15:dtype of the source requested for the result")
         p.prove(z3.BoolVal(r.f.get("parameters") is snap["parameters"]), f"{q}:parameters carried")
 
 
@@ -366,4 +395,4 @@ class RejectionSample(Contract):
             want = arr_getitem(I, snap[k], m_code, None)
             p.prove(arr_eq_goal(got, want), f"{q}:C02:{k} == self.{k}[accept] with the one acceptance mask")
         dt = r.f.get("dtype")
-        p.prove(z3.BoolVal(isinstance(dt, Sym) and dt.info.get("requested") is snap["dtype"]), f"{q}:C15:dtype of the source requested for the result")
+        p.prove(z3.BoolVal(dtype_carried(dt, snap["dtype"])), f"{q}:C15:dtype of the source requested for the result")
